@@ -77,7 +77,9 @@ PROPS = {
                 explanation="Protocol-level theorems (order independence of every merge, no deadlock / all results delivered for the fan-out/fan-in skeletons) are proved on the model; absence of data races and real scheduling are runtime facts sampled with the Go race detector, not proved."),
     "C13": dict(level="proof", workers=1, model_workers=16,
                 modes=[{"name": "purity-fingerprint", "args": ["-purity"]},
-                       {"name": "purity-cpu2", "args": ["-purity"], "prefix": taskset(2), "filter": "^mp "}],
+                       {"name": "purity-cpu2", "args": ["-purity"], "prefix": taskset(2), "filter": "^mp "},
+                       # one P: sync.Pool hands a recycled object straight back to the next call
+                       {"name": "history-procs1", "env": {"GOMAXPROCS": "1"}, "filter": "^(mpv|mp|ipa|msm|batch|commit|serde) "}],
                 rule="mixed API histories executed sequentially; a fingerprint of SRS, Q, weight tables, precomputed tables (strided per call, complete before/after the history), package variables and labels is taken around every call; every call checks its own inputs bit-for-bit afterwards; outputs compared with the model (history independence: the model is a pure function of the case line)."),
     "C14": dict(ties=['Schedules'], level="proof", selftest=True, verdict=c14_verdict,
                 rule="operation sequences of length 0..64 (thorough 0..512) over the five operations, empty labels/messages, pending buffers beyond 1 kB / 4 kB / 20 kB, scalars 0, r-1, points in several representations, consecutive challenges; binding pairs (same-shape byte change, swap, drop, protocol label change, label/message boundary shift)."),
